@@ -28,6 +28,9 @@ CLSNAME = {k: v.__name__ for k, v in gl.DESC.items()}
 IDS = [-7, 0, 1, 2, 5, 1 << 40, 11, 3]
 
 
+SIBLINGS = {"Tet": ["SP"], "SP": ["Tet"], "TBP": ["PB", "Atrop"], "PB": ["TBP", "Atrop"], "Atrop": ["TBP", "PB"], "Oct": []}
+
+
 def parities(kind):
     return (1, -1) if oracle.CHIRAL[kind] else (0,)
 
@@ -254,6 +257,12 @@ def hash_body(kind, pat, k, p, q, idv):
     ids = IDS[idv:] + IDS[:idv]
     a = tuple(None if i in pats[pat] else ids[i] for i in range(n))
     b = tuple(a[i] for i in perms[k])
+    for sib in SIBLINGS[kn]:          # another class of the same arity over the same tuples, hashed first
+        for x in (a, b):
+            try:
+                hash(gl.DESC[sib](x, parities(sib)[0]))
+            except Exception:
+                pass
     t, u = gl.DESC[kn](a, pa), gl.DESC[kn](b, pb)
     eq = (t == u)
     if pa is not None and pb is not None:
